@@ -20,8 +20,8 @@ package counter
 
 import (
 	"bytes"
-	"encoding/base64"
 	"crypto/sha256"
+	"encoding/base64"
 	"encoding/binary"
 	"encoding/hex"
 	"fmt"
@@ -51,10 +51,11 @@ type c05Step struct {
 }
 
 type c05Scn struct {
-	Name  string    `json:"name"`
-	Setup string    `json:"setup"` // fresh | existing | full
-	Mode  string    `json:"mode"`  // contents of the mode file ("" = no mode file)
-	Steps []c05Step `json:"steps"`
+	Name      string          `json:"name"`
+	Setup     string          `json:"setup"`     // fresh | existing | full
+	Mode      string          `json:"mode"`      // contents of the mode file ("" = no mode file)
+	ModeClass *c05h.ModeClass `json:"modeClass"` // if set: the mode file holds this class of bytes (ModeBytes.tla)
+	Steps     []c05Step       `json:"steps"`
 }
 
 // ------------------------------------------------------------------ world
@@ -284,6 +285,12 @@ func (w *c05World) curIsToday() bool {
 
 func c05RunFaultCase(t *testing.T, scn *c05Scn, plan *c05h.Plan, budget int, record bool) {
 	w := c05NewWorld(t, scn.Setup, scn.Mode)
+	if scn.ModeClass != nil {
+		os.MkdirAll(w.dir, 0777)
+		if err := os.WriteFile(filepath.Join(w.dir, "mode"), scn.ModeClass.Bytes(), 0666); err != nil {
+			t.Fatal(err)
+		}
+	}
 	c05w = w
 	w.h = c05h.NewHooks(w.dir, plan)
 	w.h.Install()
@@ -427,9 +434,9 @@ func c05RunFaultCase(t *testing.T, scn *c05Scn, plan *c05h.Plan, budget int, rec
 func TestVerifC05Faults(t *testing.T) {
 	defer rt.Flush()
 	var in struct {
-		Scenarios []c05Scn  `json:"scenarios"`
+		Scenarios []c05Scn    `json:"scenarios"`
 		Plans     []c05h.Plan `json:"plans"`
-		Budget    int       `json:"budget"`
+		Budget    int         `json:"budget"`
 	}
 	if err := rt.In(&in); err != nil {
 		t.Skip(err)
@@ -456,7 +463,6 @@ func TestVerifC05Faults(t *testing.T) {
 	}
 }
 
-
 // ------------------------------------------------------- corrupt files at rest
 
 // One case of Corrupt.tla: the damage classes of the file and the operation.
@@ -480,15 +486,15 @@ type c05CCase struct {
 // the second page.  N is a new name whose bucket is empty, M a new name that
 // collides with E and C.
 type c05Base struct {
-	data                 []byte
-	hdrLen               uint32
-	nameE, nameC, nameV  string
-	nameN, nameM         string
-	offE, offC, offV     uint32
-	bE, bN, bV           uint32
-	limit                uint32
-	emptySlots           uint32 // offset inside the hash table, 32-aligned, 64 bytes of zero slots
-	names                map[string]string // real name -> short
+	data                []byte
+	hdrLen              uint32
+	nameE, nameC, nameV string
+	nameN, nameM        string
+	offE, offC, offV    uint32
+	bE, bN, bV          uint32
+	limit               uint32
+	emptySlots          uint32            // offset inside the hash table, 32-aligned, 64 bytes of zero slots
+	names               map[string]string // real name -> short
 }
 
 var c05base *c05Base
